@@ -311,6 +311,7 @@ func runHubScenario(seed int64, maxEv int, port int) *hubScenario {
 	sc.events = append(sc.events, "start")
 	sc.outs = append(sc.outs, " ;  | ")
 
+	var script []scripted
 	sinceDelayed := -1 // events since a delayed notification / dial task was created (-1: none pending)
 	shutdown := false
 	for n := 0; n < maxEv; n++ {
@@ -323,6 +324,30 @@ func runHubScenario(seed int64, maxEv int, port int) *hubScenario {
 			continue
 		}
 		choice := rnd.Intn(100)
+		// now and then a realistic episode instead of independent events: a connection of an SKI comes up, its
+		// handshake ends one way or another, the connection closes, the service is seen again via mDNS
+		forcedSt := -1
+		if len(script) == 0 && rnd.Intn(12) == 0 {
+			ends := []int{16, 39, 14, 15, 17, 38, 13}
+			script = []scripted{{"connected", k, []int{8, 11, 2, 4}[rnd.Intn(4)]}, {"connupdate", k, ends[rnd.Intn(len(ends))]}, {"connclosed", k, -1}, {"report", k, -1}, {"tick", k, -1}}
+			if rnd.Intn(2) == 0 {
+				script = append([]scripted{{"report", k, -1}}, script...)
+			}
+		}
+		if len(script) > 0 {
+			f := script[0]
+			script = script[1:]
+			k, forcedSt = f.k, f.st
+			choice = map[string]int{"connected": 70, "connupdate": 85, "connclosed": 95, "report": 50, "tick": 65}[f.kind]
+			if f.kind == "connclosed" || f.kind == "connupdate" {
+				if _, ok := conns[k]; !ok {
+					script = nil
+					continue
+				}
+			}
+		}
+		scriptedNow := forcedSt >= 0 || choice == 95 && len(script) > 0
+		_ = scriptedNow
 		delayedCreated := false
 		switch {
 		case choice < 16:
@@ -388,6 +413,9 @@ func runHubScenario(seed int64, maxEv int, port int) *hubScenario {
 			continue
 		case choice < 77:
 			st := []model.ShipMessageExchangeState{2, 4, 8, 11, 22, 27, 36, 38}[rnd.Intn(8)]
+			if forcedSt >= 0 {
+				st = model.ShipMessageExchangeState(forcedSt)
+			}
 			c := &mockConn{log: log, id: nextID, ski: k, st: st}
 			c.dh = &mockDH{id: nextID}
 			nextID++
@@ -397,7 +425,7 @@ func runHubScenario(seed int64, maxEv int, port int) *hubScenario {
 			settle(60 * time.Millisecond)
 			record(fmt.Sprintf("connected %s %d %d", hexs(k), c.id, uint(st)), nil)
 		case choice < 91:
-			if c, ok := conns[k]; ok && rnd.Intn(2) == 0 {
+			if c, ok := conns[k]; ok && forcedSt < 0 && rnd.Intn(2) == 0 {
 				// a burst: several state updates back to back, as a handshake that runs through its phases produces them
 				all := []model.ShipMessageExchangeState{2, 6, 8, 11, 13, 18, 20, 26, 31, 36, 38}
 				var parts []string
@@ -420,6 +448,9 @@ func runHubScenario(seed int64, maxEv int, port int) *hubScenario {
 				delayedCreated = changed
 			} else if c, ok := conns[k]; ok {
 				st := []model.ShipMessageExchangeState{2, 6, 7, 8, 10, 11, 13, 14, 15, 16, 18, 20, 26, 27, 31, 36, 37, 38, 39}[rnd.Intn(19)]
+				if forcedSt >= 0 {
+					st = model.ShipMessageExchangeState(forcedSt)
+				}
 				isErr := st == 39 || rnd.Intn(12) == 0
 				var e error
 				if isErr {
@@ -438,6 +469,9 @@ func runHubScenario(seed int64, maxEv int, port int) *hubScenario {
 		default:
 			if len(allConns) > 0 {
 				c := allConns[rnd.Intn(len(allConns))]
+				if fc, ok := conns[k]; ok && choice == 95 {
+					c = fc
+				}
 				end := rnd.Intn(2) == 0
 				h.HandleConnectionClosed(c, end)
 				if conns[c.ski] == c {
@@ -461,6 +495,12 @@ func runHubScenario(seed int64, maxEv int, port int) *hubScenario {
 		h.Shutdown()
 	}
 	return sc
+}
+
+type scripted struct {
+	kind string
+	k    string
+	st   int
 }
 
 func hubstepMain(args []string) int {
